@@ -26,6 +26,11 @@ class Bad(Exception):
     pass
 
 
+class DomainMismatch(Exception):
+    """the operator's domain is not the union of the domains of its parts"""
+    pass
+
+
 # ------------------------------------------------------------------------------------------------
 # domains / fields
 def mkdom(spec):
@@ -169,9 +174,10 @@ def build(e, dom):
         mp = I.MatrixProductOperator(src, A)
         from nifty.cl.operators.simple_linear_operators import DomainChangerAndReshaper
         dd = I.DomainTuple.make(dom)
-        resh = DomainChangerAndReshaper(mp.target, dd)
+        # dom -> flat -> A -> dom  (so that the model keeps the leaf's domain and keys can be shared)
+        resh = DomainChangerAndReshaper(mp.target, dd) @ mp @ DomainChangerAndReshaper(dd, mp.domain)
         inner = build_leaf(e["e"], dom)
-        op = inner @ (resh @ mp)
+        op = inner @ resh
         if e["e"].get("key") is not None:
             op = op.ducktape(e["e"]["key"])
         return op
@@ -253,7 +259,7 @@ def position(case, op):
     I = ift()
     keys = list(dom.keys()) if isinstance(dom, I.MultiDomain) else [None]
     if [k for k, _, _ in lay] != keys:
-        raise Bad(f"layout keys {lay} vs domain keys {keys}")
+        raise DomainMismatch(f"energy domain has keys {keys}, its parts need {[k for k, _, _ in lay]}")
     return unflatten(np.array(case["x"], dtype=np.float64), dom, lay), lay
 
 
